@@ -1,4 +1,4 @@
-\* quick: 1 group, 3 unit classes, <=3 records/side, counts 1..3, no endpoints; every manifest per chain state
+\* quick: 1 group, 3 unit classes, <=3 records/side, counts 1..3, no endpoints; every manifest per chain state; chain side up to renaming of the classes
 SPECIFICATION Spec
 CONSTANTS
   UnitSeq <- U3
@@ -8,10 +8,11 @@ CONSTANTS
   MaxCount = 3
   MCountMin = 1
   EpVals <- EpNone
-  ChainCanonical = FALSE
+  ChainCanonical = TRUE
   TenantMode = "forall"
   ExportMode = "focus"
   SampleMod = 997
   SampleRes = 0
+  NearMod = 3
 INVARIANTS ForAllManifests
 CHECK_DEADLOCK FALSE
